@@ -19,6 +19,7 @@ import (
 	"sort"
 	"strconv"
 	"strings"
+	"syscall"
 	"time"
 )
 
@@ -175,6 +176,19 @@ func c17CheckWs(c *c17Case) map[string]string {
 	return ws
 }
 
+// c17LockRoot serialises the users of one workspace directory (fixed roots of corpus / known-finding cases may be
+// used by two checks running at the same time); the lock is released when the process exits
+func c17LockRoot(root string) *os.File {
+	dir := c17TmpRoot + "locks"
+	os.MkdirAll(dir, 0755)
+	f, err := os.OpenFile(filepath.Join(dir, hx([]byte(root))), os.O_CREATE|os.O_RDWR, 0644)
+	if err != nil {
+		return nil
+	}
+	syscall.Flock(int(f.Fd()), syscall.LOCK_EX)
+	return f
+}
+
 // runs in the child process
 func c17Child(line string) string {
 	c := c17ParseCase(line)
@@ -182,6 +196,13 @@ func c17Child(line string) string {
 	if !strings.HasPrefix(c.root, c17TmpRoot) || strings.Contains(c.root, "..") {
 		return "BAD-CASE root"
 	}
+	lock := c17LockRoot(c.root)
+	defer func() {
+		os.RemoveAll(c.root)
+		if lock != nil {
+			lock.Close()
+		}
+	}()
 	if c.js != nil && c.js.entry {
 		return "BAD-CASE entry files are outside the modelled fragment"
 	}
@@ -304,8 +325,12 @@ func c17Spawn(leg, line string, cleanup string) string {
 		cmd.Process.Kill()
 		res = "TIMEOUT"
 	}
-	if cleanup != "" && strings.HasPrefix(cleanup, c17TmpRoot) {
-		os.RemoveAll(cleanup)
+	if cleanup != "" && strings.HasPrefix(cleanup, c17TmpRoot) && (strings.HasPrefix(res, "CRASH") || res == "TIMEOUT") {
+		// the child could not clean up itself
+		if lock := c17LockRoot(cleanup); lock != nil {
+			os.RemoveAll(cleanup)
+			lock.Close()
+		}
 	}
 	return res
 }
